@@ -733,6 +733,21 @@ class IntegratePlanar:
         Computes the integral for a bezier curve of given control points
         """
         assert isinstance(curve, PlanarCurve)
+        if nnodes is None and curve.degree > 1:
+            # The curve lies inside the box of its control points: seen from
+            # outside that box, the curve and its chord subtend the same angle
+            pieces = [(curve, 0)]
+            total = 0
+            while pieces:
+                piece, depth = pieces.pop()
+                if depth < 32 and Point2D(center) in piece.box():
+                    halfs = piece.split((Fraction(1, 2),))
+                    pieces += [(half, depth + 1) for half in halfs]
+                    continue
+                total += IntegratePlanar.winding_number_linear(
+                    piece.ctrlpoints[0], piece.ctrlpoints[-1], center
+                )
+            return total
         nnodes = curve.npts if nnodes is None else nnodes
         nodes = Math.closed_linspace(nnodes)
         total = 0
